@@ -63,6 +63,11 @@ CHECKS = {
    note="Trusted: Coq kernel, extraction, driver, harness; H-with (CPython runs __exit__ on every way out of a with body, BaseException included); asyncio.run's loop cleanup and the warnings module are runtime (checked on the implementation only); PythonPathContext indices outside -(len+1)..len are outside the modelled range.",
    technique="Coq proof (bracket discipline by induction over parts and operations; list insert/pop algebra) + differential correspondence + before/after identity search on the implementation",
    design="5/C12"),
+ 'C11': dict(
+   text="PARTIAL. Coq theorems over a heap model of the directive state (the mutable REQUIRES set of the process-wide DEFAULT_RUNTIME_STATE, RuntimeState.__init__'s deepcopy, update's in-place set.add/remove, the inline overlay's copy): C11_defaults_never_written (for EVERY history of runs - any order, repetitions, any default options, any directives including ones that make update raise - every heap cell that existed before, in particular the default REQUIRES set, is left exactly as it was), C11_default_contents_stable, C11_run_preserves_heap, C11_fresh_state_owns_its_sets, C11_update_stays_in_own_cells. Tie to the code: seeded histories of RuntimeState constructions/updates vs the extracted heap model (the REQUIRES each state reads after every update, DEFAULT_RUNTIME_STATE after every run). The rest of the property (names of one doctest invisible to another, module globals not rebound, same outcome and captured output in every history) is decided on the implementation: permutations and repetitions of the 13 doctests of a generated module (clashing names, names only another doctest defines, rebinding module globals, SKIP/REQUIRES/flags left on, sys.stdout replaced, warning filters changed) on re-used and fresh DocTest objects x 3 default-option settings, every observation compared with that doctest's first observation.",
+   note="Trusted: Coq kernel, extraction, driver, harness; that exec() on a copied namespace dict does not write the module, and that a returning run clears its namespace, are CPython/runtime facts observed by the harness, not theorems; histories contain returning runs only (on_error=return); in-place mutation of shared module objects is outside the statement.",
+   technique="Coq proof (heap ownership invariant by induction over effects, parts and histories) + differential correspondence on RuntimeState histories + history-vs-alone search on the implementation",
+   design="5/C11"),
 }
 
 NOT_APPLICABLE = {}
